@@ -543,6 +543,14 @@ func repoGarbageCollect(repo Repo, conf config.Config, index types.Index, locked
 			index.RmDesc(types.Descriptor{Digest: d})
 		}
 	}
+	// the same for child records: their parent may not have been walked (it was not retained, or its own blob is gone)
+	for _, child := range index.Children() {
+		if !blobExists[child.Digest] {
+			// the caller only takes the returned index when it is reported as modified
+			mod = true
+			index.RmDesc(types.Descriptor{Digest: child.Digest})
+		}
+	}
 	return index, mod, nil
 }
 
